@@ -29,7 +29,7 @@ def run(ctx):
         return
     k = 4 if ctx.thorough() else 1
     rng = ctx.rng
-    stores = generic.stores_for(ctx, dict(conforming=20, injected=60, flow=60, random=30, handlers=10, mutated=30))
+    stores = generic.stores_for(ctx, dict(conforming=20, injected=60, flow=200, random=30, handlers=10, mutated=30))
     for _ in range(200 * k):
         f, b = gen.det_prog(rng)
         stores.append((f, b, "det"))
